@@ -16,6 +16,24 @@ Fixpoint admissible_with (c : st -> op -> bool) (s : st) (l : list op) : Prop :=
       | Ok s' _ => c s o = true /\ admissible_with c s' r
       end
   end.
+Fixpoint admissible_b (c : st -> op -> bool) (s : st) (l : list op) : bool :=
+  match l with
+  | [] => true
+  | o :: r =>
+      match step s o with
+      | Rejected => admissible_b c s r
+      | Fault => c s o
+      | Ok s' _ => c s o && admissible_b c s' r
+      end
+  end.
+Lemma admissible_b_ok c l : forall s, admissible_b c s l = true -> admissible_with c s l.
+Proof.
+  induction l as [|o r IH]; intros s; cbn [admissible_b admissible_with]; auto.
+  destruct (step s o) as [s' ev| |]; auto.
+  intros H. apply andb_prop in H. destruct H. split; auto.
+Qed.
+Ltac adm := apply admissible_b_ok; vm_compute; reflexivity.
+Ltac runs := vm_compute; reflexivity.
 Definition admissible := admissible_with contract.
 Definition text_admissible := admissible_with text_contract.
 
@@ -41,39 +59,39 @@ Lemma stop_then_connect_refuted :
                                quiet s1 = true /\ idle s1 = false).
 Proof.
   split; [|split].
-  - split; vm_compute; intuition congruence.
-  - split; [vm_compute; intuition congruence|].
-    eexists _, _. split; [vm_compute; reflexivity|]. split; [reflexivity|]. split; [cbn; auto 20|].
+  - split; [adm|runs].
+  - split; [adm|].
+    eexists _, _. split; [runs|]. split; [reflexivity|]. split; [cbn; auto 20|].
     cbn. intros H. decompose [and] H. discriminate.
-  - split; [vm_compute; intuition congruence|].
-    eexists _, _. split; [vm_compute; reflexivity|]. split; [discriminate|]. split.
+  - split; [adm|].
+    eexists _, _. split; [runs|]. split; [discriminate|]. split.
     + cbn. intros H. decompose [and] H. discriminate.
-    + eexists _, _. split; [vm_compute; reflexivity|]. split; reflexivity.
+    + eexists _, _. split; [runs|]. split; reflexivity.
 Qed.
 
 (* ---- F-16: state_ stays kConnected *)
 Definition w_f16 : list op := [Connect; EvWritable 0 false; RunPending; Down; RunPending; Connect].
 Lemma reconnect_refuted : text_admissible init w_f16 /\ run init w_f16 = None.
-Proof. split; vm_compute; intuition congruence. Qed.
+Proof. split; [adm|runs]. Qed.
 
 (* ---- F-17: connect() while resetChannel is still queued *)
 Definition w_f17 : list op := [Connect; Stop; RunPending; Connect].
 Lemma connect_in_teardown_iteration_refuted : text_admissible init w_f17 /\ run init w_f17 = None.
-Proof. split; vm_compute; intuition congruence. Qed.
+Proof. split; [adm|runs]. Qed.
 
 (* ---- F-18: ~TcpClient with a connection while a Connector functor is queued *)
 Definition w_f18a : list op := [Connect; EvWritable 0 false; Destroy].
 Definition w_f18b : list op := [Connect; EvWritable 0 false; RunPending; Stop; Destroy; RunPending].
 Lemma destroy_connected_refuted :
   (text_admissible init w_f18a /\ run init w_f18a = None) /\ (text_admissible init w_f18b /\ run init w_f18b = None).
-Proof. split; split; vm_compute; intuition congruence. Qed.
+Proof. split; (split; [adm|runs]). Qed.
 
 (* ---- F-13: ~TcpClient on a foreign thread, cut at its mutex acquisitions *)
 Definition w_f13a : list op := [EnableRetry; Connect; EvWritable 0 false; RunPending; XDestroyRead; Down; XDestroyRest].
 Definition w_f13b : list op := [Connect; EvWritable 0 false; RunPending; XDestroyRead; XDestroyRest; Down].
 Lemma foreign_destroy_refuted :
   (text_admissible init w_f13a /\ run init w_f13a = None) /\ (text_admissible init w_f13b /\ run init w_f13b = None).
-Proof. split; split; vm_compute; intuition congruence. Qed.
+Proof. split; (split; [adm|runs]). Qed.
 
 (* ---- the environment contract `timely` is needed *)
 Lemma stalled_loop_refuted :
@@ -95,6 +113,5 @@ Lemma examples_admissible :
       socks s = [HandedClosed 1; HandedClosed 1]) /\
   (admissible init ex_foreign /\ exists s ev, run init ex_foreign = Some (s, ev) /\ k_dead s = true /\ socks s = [HandedClosed 1]).
 Proof.
-  repeat split; try (vm_compute; intuition congruence);
-    eexists _, _; (split; [vm_compute; reflexivity|]); repeat split; reflexivity.
+  split; [|split]; (split; [adm|]); eexists _, _; (split; [runs|]); split; reflexivity.
 Qed.
